@@ -7,7 +7,7 @@ that the driver runs against the real code (families `decapi`, `dechist`). They 
 option combination, every factory table and every sequence of API calls.
 
 PROPERTY THEOREMS (audited by ./check): C03_no_panic, C03_no_hang, C03_sticky, C03_error_sticks, C03_sticky_run,
-C03_no_fake_success, C03_no_fake_success_clean, C03_consts
+C03_no_fake_success, C03_no_fake_success_clean, C03_ctx_cancel, C03_ctx_no_fake_success, C03_consts
 -/
 namespace Fit.C03
 open Fit.DecApi
@@ -97,6 +97,64 @@ theorem C03_no_fake_success_clean (s : St) (hq : s.q = {}) (hl : s.look = {}) (h
       f.hdr.dataSize ≤ recs.length ∧ f.crc = c0 + 256 * c1 ∧ (s.o.chk = true → Fit.Crc.write 0 recs = f.crc) := by
   rw [eq_fresh_of_clean s hq hl] at h
   exact C03_no_fake_success s.o s.rest hb hf hlen s' f evs h
+
+def isFitOut : Out → Bool
+  | .fit _ => true
+  | _ => false
+
+/-- **A context cancelled while `DecodeWithContext` runs** (by a listener, by another goroutine — `k` = the number of
+records the call decodes before a check of the context first sees it, any `k`): the call either is `Decode` itself
+— same state afterwards, same result, same listener calls: the cancellation came too late to be seen — or it returns
+the context's error, which is then the decoder's sticky `d.err` (so by `C03_sticky_run` every later call returns it
+until `Reset`: no later `Decode` can present the rest of the stream, or an empty FIT, as a success). -/
+theorem C03_ctx_cancel (k : Nat) (s : St) (hi : Inv s) :
+    stepDecodeCtxAt k s = stepDecode s ∨
+      ((stepDecodeCtxAt k s).2.1 = .err .ctx ∧ (stepDecodeCtxAt k s).1.q.err = some .ctx) := by
+  have hg := stepDecodeCtxAt_good k s hi
+  unfold stepDecodeCtxAt stepDecode at *
+  cases he : s.q.err with
+  | some e => left; rfl
+  | none =>
+    rw [he] at hg
+    simp only at hg ⊢
+    unfold decodeBodyAt decodeBody at *
+    cases hr : headerOnce s with
+    | ok s1 =>
+      rw [hr] at hg
+      simp only at hg ⊢
+      rcases decodeMessagesCtx_cases (fuelOf s1) k s1 with hc | hc
+      · left; rw [hc]; rfl
+      · right
+        have : (decodeTail (decodeMessagesCtx (fuelOf s1) k s1)).2.1 = .err .ctx := by
+          rcases hd : decodeMessagesCtx (fuelOf s1) k s1 with ⟨s2, evs2, r⟩
+          rw [hd] at hc
+          simp only at hc
+          subst hc
+          rfl
+        exact ⟨this, hg.2.2.2 _ this⟩
+    | err e => left; rfl
+    | panic => left; rfl
+    | hang => left; rfl
+
+/-- **No fake success of `DecodeWithContext`**, whenever its context is cancelled: a FIT it returns on a new decoder
+is the FIT `Decode` returns, with everything `C03_no_fake_success` says about it. -/
+theorem C03_ctx_no_fake_success (k : Nat) (o : Opts) (bytes : List Nat) (hb : IsBytes bytes) (hf : FacOK o.fac)
+    (hlen : bytes.length < 4294967296) (s' : St) (f : Fit) (evs : List Event)
+    (h : stepDecodeCtxAt k (St.fresh o bytes) = (s', .fit f, evs)) :
+    stepDecode (St.fresh o bytes) = (s', .fit f, evs) ∧
+    ∃ hdr recs c0 c1, bytes = hdr ++ recs ++ [c0, c1] ++ s'.rest ∧ HdrOK o.chk 0 hdr f.hdr ∧
+      f.hdr.dataSize ≤ recs.length ∧ f.crc = c0 + 256 * c1 ∧ (o.chk = true → Fit.Crc.write 0 recs = f.crc) :=
+  ⟨stepDecodeCtxAt_fit k _ s' f evs h,
+   C03_no_fake_success o bytes hb hf hlen s' f evs (stepDecodeCtxAt_fit k _ s' f evs h)⟩
+
+/-- Non-vacuity, and the scenario of the cancellation that arrives with the LAST message (`P` is one definition and one
+data record; the listener of the data record cancels the context; the check after the loop sees it): the call fails with the context error, and the
+`Decode` that follows returns that error — not a FIT with no messages. A cancellation that would come after a third
+record is never seen: the call is `Decode`. -/
+example : let P := [14, 32, 154, 82, 11, 0, 0, 0, 46, 70, 73, 84, 30, 8, 64, 0, 0, 0, 0, 1, 0, 1, 0, 0, 4, 84, 47]
+    (run (Api.fresh {} P) [.decodeCtxAt 2, .decode]).map (·.1) = [.err .ctx, .err .ctx] ∧
+    isFitOut (stepDecodeCtxAt 3 (St.fresh {} P)).2.1 = true ∧
+    stepDecodeCtxAt 3 (St.fresh {} P) = stepDecode (St.fresh {} P) := by decide +kernel
 
 /-- Non-vacuity: a one-record sequence is accepted (`P` of C07), its corrupted copy is not, and a decoder that met a
 truncated header is dead and stays so. -/
